@@ -2,7 +2,7 @@
 """Regenerates MANIFEST.json from the table below (run after adding a check)."""
 import json, subprocess
 
-HOOK_COMMITS = ["102a258"]
+HOOK_COMMITS = ["102a258", "f921dc1"]
 
 CHECKS = {
  "C13": dict(level="model_checking", engine="E1-sequences",
@@ -29,6 +29,12 @@ CHECKS["C07"] = dict(level="exploration", engine="E4-domain",
    text="Over a boundary alphabet of 39 (quick) / 86 (thorough) key values of all storage classes (int64 limits, +-2^53+-1, +-0, +-inf, 2^63 as real, empty/non-ASCII text, blobs): every ordered pair is compared with the result of SQLite's own comparison of the bound values and checked for antisymmetry and Layer agreement of equal keys (branch factors 2,3,4,16,4096); every triple is checked for transitivity; every ordered pair is inserted end to end into a pre-filled multi-level tree (entries_per_node 2,3[,4,16],4096) and outcome plus ORDER BY result compared with a native table, also from a fresh connection; NULL keys must be rejected without changing the table.",
    note="Trusted: SQLite's comparison of bound values as the reference order. Only alphabet values are covered (bounded input-domain enumeration, not a proof over all int64/float64).",
    ref="§5 C07")
+
+CHECKS["C08"] = dict(level="exploration", engine="E4-domain",
+   technique="exhaustive enumeration of a boundary value alphabet x position x rows-per-object, each observed at 8 life-cycle stages on the real extension against a native table",
+   text="Every value of the boundary alphabet (all storage classes incl. int64 limits, +-0, +-inf, values beyond 2^53, empty/non-ASCII/embedded-NUL/invalid-UTF-8 text, empty/1 KiB/70 KiB blobs and text, expression-produced values) is written in key and non-key position and read back with typeof() and bit-exact rendering inside the transaction, after commit, from a fresh connection, after a merge with a second writer (unrelated row and an older conflicting insert that must lose), after vacuum and from a fresh connection after vacuum, for entries_per_node 2[,3],4096; unmentioned columns must read NULL; a refused value must be an error and leave the table as before. Oracle: a native table given the same statements.",
+   note="Trusted: SQLite native table as reference; go-sqlite3 driver value mapping is the same on both sides. Values outside the alphabet are not covered.",
+   ref="§5 C08")
 
 NOT_YET = {}
 
